@@ -21,6 +21,7 @@ import tempfile
 import time
 from concurrent.futures import ThreadPoolExecutor
 
+KINDS = set()          # restrict the mutation operators (--kinds swap,dropcall)
 VERIF = os.path.dirname(os.path.dirname(os.path.abspath(__file__)))
 REPO = "/repo"
 PKG = "asl-workflow-engine/py/asl_workflow_engine"
@@ -44,9 +45,33 @@ CMP = {ast.Lt: ast.LtE, ast.LtE: ast.Lt, ast.Gt: ast.GtE, ast.GtE: ast.Gt, ast.E
        ast.In: ast.NotIn, ast.NotIn: ast.In, ast.Is: ast.IsNot, ast.IsNot: ast.Is}
 
 
-def sites(tree):
+PROTOCOL_CALLS = {"publish", "acknowledge", "broadcast", "broadcast_notification", "set_timeout", "clear_timeout", "update_execution_history",
+                  "end_execution", "change_state", "handle_error", "check_pending_results", "acknowledge_event_list", "handle_terminal_state",
+                  "remove_canceller", "set_timeout_canceller", "cancel_task", "handle_sfn_response", "asl_state_collect_results", "set_ttl",
+                  "send", "schedule_orphaned_response_handler"}
+
+
+def _callname(st):
+    if isinstance(st, ast.Expr) and isinstance(st.value, ast.Call):
+        f = st.value.func
+        return f.attr if isinstance(f, ast.Attribute) else getattr(f, "id", "")
+    return ""
+
+
+def sites(tree, kinds=None):
     """[(kind, node)] of the mutable places"""
     out = []
+    for node in ast.walk(tree):
+        # two adjacent statements of a block, one of them a protocol operation: swapped
+        for fld in ("body", "orelse", "finalbody"):
+            blk = getattr(node, fld, None)
+            if isinstance(blk, list):
+                for i in range(len(blk) - 1):
+                    a, b = blk[i], blk[i + 1]
+                    if (_callname(a) in PROTOCOL_CALLS or _callname(b) in PROTOCOL_CALLS) and \
+                            all(isinstance(x, (ast.Expr, ast.Assign, ast.AugAssign)) for x in (a, b)) and \
+                            not (isinstance(a, ast.Expr) and isinstance(a.value, ast.Constant)):
+                        out.append(("swap", (blk, i)))
     for node in ast.walk(tree):
         if isinstance(node, ast.Compare) and len(node.ops) == 1 and type(node.ops[0]) in CMP:
             out.append(("cmp", node))
@@ -69,10 +94,24 @@ def sites(tree):
 def mutate_source(src, rng):
     """-> (new source, description) or None"""
     tree = ast.parse(src)
-    ss = [s for s in sites(tree) if getattr(s[1], "lineno", 0) > 0]
+    ss = [s for s in sites(tree) if s[0] == "swap" or getattr(s[1], "lineno", 0) > 0]
+    if KINDS:
+        ss = [s for s in ss if s[0] in KINDS]
     if not ss:
         return None
     kind, node = rng.choice(ss)
+    if kind == "swap":
+        blk, i = node
+        line = blk[i].lineno
+        desc = "line %d: statements swapped (%s <-> %s)" % (line, ast.unparse(blk[i])[:50].replace("\n", " "), ast.unparse(blk[i + 1])[:50].replace("\n", " "))
+        blk[i], blk[i + 1] = blk[i + 1], blk[i]
+        ast.fix_missing_locations(tree)
+        try:
+            new = ast.unparse(tree)
+            compile(new, "<mutant>", "exec")
+        except Exception:
+            return None
+        return new, desc
     line = node.lineno
     if kind == "cmp":
         old = type(node.ops[0]).__name__
@@ -182,7 +221,9 @@ def main():
     ap.add_argument("--seed", type=int, default=1)
     ap.add_argument("--jobs", type=int, default=3)
     ap.add_argument("--files", default="state_engine.py,task_dispatcher.py,event_dispatcher.py,state_engine_paths.py,rest_api_asyncio.py,store.py,arn.py,statelint")
+    ap.add_argument("--kinds", default="")
     a = ap.parse_args()
+    KINDS.update(k for k in a.kinds.split(",") if k)
     if a.cmd == "report":
         rows = []
         for f in sorted(os.listdir(OUT)) if os.path.isdir(OUT) else []:
